@@ -61,10 +61,12 @@ class Concretiser:
 
     def ws(self, w):
         if w:
-            choices = [" ", " ", "  ", "\t"] + (["\n", "\n  ", " /* c */ ", " /*é😀*/\n"] if self.multiline else [" /* c */ "])
+            choices = [" ", " ", "  ", "\t"] + (["\n", "\n  ", " /* c */ ", " /*é😀*/\n", " /*a*//*b*/", "/*a*/ /*😀*//**/ ", "\n/*a*//* b\n*/"]
+                                                if self.multiline else [" /* c */ ", " /*a*//*b*/"])
             self.emit(self.rnd.choice(choices))
-        elif self.rnd.random() < 0.08:
-            self.emit("/**/")
+        elif self.rnd.random() < 0.1:
+            # comments without white space: one, or several in a row (each must be skipped before the token's position is taken)
+            self.emit(self.rnd.choice(["/**/", "/**/", "/*a*//*b*/", "/*é*//*😀*//**/"]))
 
     def free_ws(self, p=0.3):
         """optional whitespace where the abstract syntax does not care (before `{`, after `{`, around `:`/`;`)"""
